@@ -72,3 +72,154 @@ def run(prog, tier, repo):
                 res.ok(key, b.loc(pt[7]), 'every popped module reference is looked up and, when present, marked before the next pop or return')
     res.floor('pop sites', n, 1)
     return [res]
+
+
+# ---------------------------------------------------------------------------------------------------------------------
+# GC-ROOTS (C11, C10): every sweep round clears the mark bits it passes and reclaims what is unmarked, so each round has to
+# re-mark *every* module the server still holds. The GC driver marks exactly the modules named in the list it is given,
+# looked up in the map it is given. Necessary condition at each call of the driver: the list is built from all keys of that
+# same map (`map.keys()` through an iterator chain), not from a subset such as the modules that were just rechecked.
+
+def run_gc_roots(prog, tier, repo):
+    res = RuleResult('GC-ROOTS', 'C11: after every recheck the GC is told to mark all modules the server holds - the module list '
+                     'given to the GC driver is built from every key of the module map given to it')
+    drivers = [b for b in prog.bodies.values() if b.crate == 'samlang_services' and b.kind != 'closure'
+               and b.name.endswith('perform_gc_after_recheck')]
+    if len(drivers) != 1:
+        res.cannot_decide('the GC driver called after a recheck')
+        return [res]
+    drv = drivers[0]
+    # parameter roles by type: the module map (HashMap<ModuleReference, Module<..>>) and the list (Vec<ModuleReference>)
+    map_idx = [i for i in range(1, drv.nargs + 1) if 'HashMap' in drv.locals[i].s and 'Module<' in drv.locals[i].s]
+    list_idx = [i for i in range(1, drv.nargs + 1) if drv.locals[i].s.startswith('std::vec::Vec<') and 'ModuleReference' in drv.locals[i].s]
+    if len(map_idx) != 1 or len(list_idx) != 1:
+        res.cannot_decide('the module map and module list parameters of the GC driver', drv.loc())
+        return [res]
+    n = 0
+
+    def keys_source(b, op, depth=0):
+        """(root, field names) of the map whose keys() feed this value through an iterator chain, or None"""
+        if op[0] not in ('c', 'm') or depth > 10:
+            return None
+        r, _p = operand_root(b, op)
+        sd = single_def(b, r) if r is not None else None
+        if not sd or sd[1] != 'term':
+            return None
+        t = sd[2]
+        nm = (callee(t)[1] or '').split('::')[-1]
+        if nm == 'keys' and t[3]:
+            rr, pp = operand_root(b, t[3][0])
+            return (rr, tuple(e[4] if e[0] == 'f' else e[1] for e in pp if e[0] in ('f', 't')))
+        if nm in ('collect', 'copied', 'cloned', 'into_iter', 'iter', 'map', 'collect_vec', 'to_vec', 'from_iter') and t[3]:
+            return keys_source(b, t[3][0], depth + 1)
+        return None
+    for b in prog.bodies.values():
+        if b.crate != 'samlang_services':
+            continue
+        for bi, bl in enumerate(b.blocks):
+            t = bl.term
+            if bl.cleanup or t[0] != 'call' or callee(t)[0] != drv.id:
+                continue
+            n += 1
+            key = f'gc-roots:{b.name}'
+            mr, mp = operand_root(b, t[3][map_idx[0] - 1])
+            mkey = (mr, tuple(e[4] if e[0] == 'f' else e[1] for e in mp if e[0] in ('f', 't')))
+            src = keys_source(b, t[3][list_idx[0] - 1])
+            if src is not None and src == mkey:
+                res.ok(key, b.loc(t[7]), 'module list = all keys of the module map handed to the GC')
+            else:
+                res.violation(key, b.loc(t[7]), f'{b.name} hands the GC driver a module list that is not built from `keys()` of the '
+                              f'module map it also hands over: modules outside that list are never re-marked, the sweeper reclaims '
+                              f'their long identifiers while they are still referenced, and later requests abort or name '
+                              f'resolution silently diverges from a fresh analysis')
+    res.floor('GC driver call sites', n, 1)
+    return [res]
+
+
+# ---------------------------------------------------------------------------------------------------------------------
+# STORE-PAIRING (C11): a CommentReference is an index into the comment store of the module whose syntax tree holds it.
+# Wherever the services hand a (store, reference) pair to a function, the store must come from the module looked up under
+# the same module key as the node the reference is read from; with the store of another module the index is out of range
+# (the request aborts) or names an unrelated comment.
+
+def run_store_pairing(prog, tier, repo):
+    from ..facts import strip_refs
+    res = RuleResult('STORE-PAIRING', 'C11: a comment reference is only ever resolved in the comment store of the module whose tree '
+                     'holds it (store and node are looked up under the same module key)')
+    n = 0
+
+    def is_ty(t, suffix):
+        t = strip_refs(t)
+        return t.k == 'adt' and t.name.endswith(suffix)
+
+    def opt_source(b, local, depth=0):
+        """follow unwrap / `?` (Try::branch, Continue payload) / as_ref / copies back to the producing call"""
+        if depth > 10:
+            return None
+        sd = single_def(b, local)
+        if not sd:
+            return None
+        if sd[1] == 'term':
+            t = sd[2]
+            nm = (callee(t)[1] or '').split('::')[-1]
+            if nm in ('unwrap', 'expect', 'branch', 'as_ref', 'unwrap_or_default', 'cloned', 'copied') and t[3]:
+                r, _ = operand_root(b, t[3][0])
+                return opt_source(b, r, depth + 1) if r is not None else None
+            return t
+        rv = sd[2]
+        if rv[0] == 'use' and rv[1][0] in ('c', 'm'):
+            r, _ = operand_root(b, rv[1])
+            return opt_source(b, r, depth + 1) if r is not None and r != local else None
+        return None
+
+    def key_of(b, t):
+        """the module-key operand of a lookup call: HashMap::get(map, key) or a services helper (state, key, ..)"""
+        for o in t[3]:
+            if o[0] in ('c', 'm') and is_ty(b.locals[o[1].local], 'ModuleReference'):
+                r, p = operand_root(b, o)
+                if r is None:
+                    return None
+                # look through `&copy` temporaries of a by-value key
+                return (r, tuple(e[4] if e[0] == 'f' else e[1] for e in p if e[0] in ('f', 't')))
+        return None
+    for b in prog.bodies.values():
+        if b.crate != 'samlang_services':
+            continue
+        for bi, bl in enumerate(b.blocks):
+            t = bl.term
+            if bl.cleanup or t[0] != 'call':
+                continue
+            store = ref = None
+            for o in t[3]:
+                if o[0] not in ('c', 'm'):
+                    continue
+                ty = b.locals[o[1].local]
+                if is_ty(ty, '::CommentStore') and ty.k == 'ref':
+                    store = o
+                elif is_ty(ty, '::CommentReference'):
+                    ref = o
+            if store is None or ref is None:
+                continue
+            rs, ps = operand_root(b, store)
+            rr, pr = operand_root(b, ref)
+            if rs is None or rr is None:
+                continue
+            # only pairs where both sides come out of lookups in this body (printer-style code walks one module)
+            ts = opt_source(b, rs)
+            tr = opt_source(b, rr)
+            if ts is None or tr is None:
+                continue
+            ks, kr = key_of(b, ts), key_of(b, tr)
+            if ks is None or kr is None:
+                continue
+            n += 1
+            nb = sum(1 for i in res.instances if i.key.startswith(f'pair:{b.name}#')) + 1
+            key = f'pair:{b.name}#{nb}'
+            if ks == kr:
+                res.ok(key, b.loc(t[7]), 'store and node looked up under the same module key')
+            else:
+                res.violation(key, b.loc(t[7]), f'{b.name} resolves a comment reference read from a node of one module in the comment '
+                              f'store of a module looked up under a different key: the index is out of range for that store (the '
+                              f'request aborts) or shows an unrelated comment')
+    res.floor('(store, reference) pairs built from lookups', n, 2)
+    return [res]
